@@ -63,7 +63,7 @@ func (e fixerEngine) Gen(prop, tier string, seed uint64, idx int) *runner.Case {
 		}
 		doc = jx.Obj{"swagger": "2.0", "info": jx.Obj{"title": "t", "version": "1"},
 			"responses": jx.Obj{"shared": shared, "other": jx.Obj{"description": "o"}},
-			"paths": jx.Obj{"/p": jx.Obj{m: jx.Obj{"responses": jx.Obj{"default": mkResp(df, 2), "200": mkResp(cd, 3), "404": mkResp("nodesc", 4)}}}}}
+			"paths":     jx.Obj{"/p": jx.Obj{m: jx.Obj{"responses": jx.Obj{"default": mkResp(df, 2), "200": mkResp(cd, 3), "404": mkResp("nodesc", 4)}}}}}
 	case idx < 7*27+7:
 		m := oracle.Methods[idx-7*27]
 		c.Name = "sys/" + m + "/no-responses-object"
